@@ -9,9 +9,12 @@ CONSTANTS
   MaxLen = 3
   MaxOps = 6
   Variant = "fresh"
+  ElemOf <- Elem3
+  CacheVariant = "none"
 INVARIANT TypeOK
 INVARIANT ListsExactlyItsSpecies
 INVARIANT OwnerAlive
+INVARIANT PhaseElementsAreUnionOfSpecies
 PROPERTY Frame
 PROPERTY NewIsWhatWasGiven
 PROPERTY OwnerAfterInsert
